@@ -345,6 +345,14 @@ def direct_failures(spec):
             nxt = g.at(l + 1)
             ref = np.asarray(ga.refined_indices()).reshape(nd, -1)
             nr = ref.shape[1]
+            # refined_indices() is exactly the set of voxels that _is_index_refined marks (for open
+            # grids: pad <= i < shape - pad on every axis, also where the padding is 0)
+            mask = np.asarray(ga._is_index_refined(idx)).astype(bool).reshape(-1)
+            want_ref = idx[:, mask]
+            if want_ref.shape != ref.shape or (np.asarray(sorted(map(tuple, ref.T))) != np.asarray(sorted(map(tuple, want_ref.T)))).any():
+                fail("refined-indices", "refined_indices() of level %d has %d voxels, _is_index_refined marks %d (axes %s)" % (
+                    l, nr, want_ref.shape[1], [(a["shape"], a["pad"]) for a in axes]), level=l)
+                continue
             ch = B(ga.children, ref).reshape(nd, nr, -1)
             nc = ch.shape[2]
             par = B(nxt.parent, ch.reshape(nd, -1)).reshape(nd, nr, nc)
@@ -406,6 +414,23 @@ def direct_failures(spec):
             fa = fg.at(l)
             size = int(fa.shape[0])
             f = np.arange(size, dtype=np.int64)[None, :]
+            # no aliasing: the index maps must not modify the (NumPy) index array of the caller
+            keep = f.copy()
+            probe_idx = idx.copy()
+            calls = [("flatindex2index", lambda: fa.flatindex2index(f)), ("index2flatindex", lambda: fa.index2flatindex(probe_idx)),
+                     ("index2coord", lambda: fa.index2coord(f))]
+            if l < depth:
+                calls.append(("children", lambda: fa.children(f)))
+            if l > 0:
+                calls.append(("parent", lambda: fa.parent(f)))
+            for nm, call in calls:
+                call()
+                if not (np.array_equal(f, keep) and np.array_equal(probe_idx, idx)):
+                    fail("aliasing", "FlatGridAtLevel.%s modified the caller's index array (%s, level %d): %s -> %s" % (
+                        nm, ordering, l, keep[0, :6].tolist(), f[0, :6].tolist()), level=l, ordering=ordering)
+                    f = keep.copy()
+                    probe_idx = idx.copy()
+                    break
             dec = B(fa.flatindex2index, f)
             enc = B(fa.index2flatindex, dec)
             okr = dec.shape == (nd, size) and ((dec >= 0) & (dec < shape[:, None])).all() and (enc == f).all()
